@@ -606,9 +606,21 @@ func cmpBoardByClass(cls []byte, boardID *ptttype.BoardID_t, clsInCache []byte, 
 }
 
 func FindBoardAutoCompleteStartIdx(keyword []byte, isAsc bool) (startIdx ptttype.SortIdx, err error) {
-	boardID := findBoardClosetKeyword(keyword, isAsc)
 	nBoard_i32 := Shm.GetBNumber()
 	nBoard := ptttype.SortIdxInStore(nBoard_i32)
+	if len(keyword) > ptttype.IDLEN { // no board name is that long
+		return -1, nil
+	}
+	if len(keyword) == 0 { // every board carries the empty prefix
+		if nBoard_i32 <= 0 {
+			return -1, nil
+		}
+		if isAsc {
+			return 1, nil
+		}
+		return ptttype.SortIdx(nBoard_i32), nil
+	}
+	boardID := findBoardClosetKeyword(keyword, isAsc)
 
 	// find the closet keyword
 	idx, err := FindBoardIdxByName(boardID, !isAsc)
@@ -682,7 +694,8 @@ func findBoardClosetKeyword(keyword []byte, isAsc bool) (boardID *ptttype.BoardI
 		copy(boardID[:], keyword)
 	} else {
 		copy(boardID[:], keyword)
-		boardID[len(keyword)-1]++
+		// the by-name order is case-insensitive (lower-cased): take the successor of the folded byte.
+		boardID[len(keyword)-1] = types.CcharTolower(boardID[len(keyword)-1]) + 1
 	}
 
 	return boardID
